@@ -18,6 +18,8 @@ from ..spec import strip_meta
 
 PID = "C09"
 LEVEL = "exploration"
+# a few fixed documents are encoded before and after every shard's workload (harness.Sentinels)
+SENTINELS = True
 RULE = ("tables of 1..40 rows x 1..6 columns, every cell tagged with its original position; each body attribute "
         "(font, size, format, text/background colour, justification, indents, spacing, hyphenation, border style / "
         "width / colour per side, vertical alignment, cell height, row justification) drawn with probability 0.35 in "
